@@ -11,7 +11,7 @@ from . import source
 from .api import REG, Contract, Lemma, Loop
 from .engine import (Engine, Ev, FnCtx, Infeasible, Oracle, RaiseSignal, assigned_vars, fresh_name)
 from .smt import quick_unsat, simp
-from .ty import (BOOL, INT, NONE, STR, TDict, TInt, TList, TNone, TOpt, TRec, TStr, TTuple, Ty)
+from .ty import (BOOL, INT, NONE, STR, TDict, TInt, TList, TNone, TOpt, TRec, TStr, TTuple, TUnion, Ty)
 from .values import NOCONC, ClassRef, EngineError, ExcVal, FuncRef, State, Val, py_to_val, seq_of
 
 Outcome = tuple[str, Any, State]
@@ -262,6 +262,18 @@ def exec_stmt(eng: Engine, fn: FnCtx, s: ast.stmt, st: State) -> Iterator[Outcom
 
 
 def eval_typed(ev: Ev, node: ast.expr, ty: Ty | None) -> Val:
+	if ty is not None and isinstance(node, ast.IfExp) and isinstance(ty, (TUnion, TOpt)):
+		# branches of different member types meet in the declared union / optional type of the target
+		c = ev.truth(node.test)
+		saved = list(ev.guards)
+		try:
+			ev.guards[:] = saved + [c]
+			a = eval_typed(ev, node.body, ty)
+			ev.guards[:] = saved + [z3.Not(c)]
+			b = eval_typed(ev, node.orelse, ty)
+		finally:
+			ev.guards[:] = saved
+		return Val(ty, z3.If(c, a.term, b.term))
 	if ty is not None:
 		if isinstance(node, ast.List) and isinstance(ty, TList):
 			return ev.seq_display(node.elts, ty)
